@@ -69,6 +69,10 @@ pub enum Op {
     LazyJoinThenDrop,
     /// create a join future, poll it once, drop it (the losing arm of a select): the actor lives on
     JoinPollDrop,
+    /// create a join future and drop it without a poll: nothing has happened
+    JoinDiscard,
+    /// a second join() while a first join future is pending returns None at once; the first one gets the actor
+    JoinWhilePending,
     Await,
     Restart,
     /// register an interval (kind 0) / interval_with (kind 1) that stops the actor after k ticks, then await the end
@@ -546,6 +550,50 @@ async fn run_program(p: &Program) -> Record {
                 }
                 None => "skip".into(),
             },
+            Op::JoinDiscard => match live.owning.as_mut() {
+                Some(o) => {
+                    drop(o.join());
+                    "ok".into()
+                }
+                None => "skip".into(),
+            },
+            Op::JoinWhilePending => match live.owning.as_mut() {
+                Some(o) => {
+                    ended = true;
+                    let mut f1 = o.join();
+                    // (a join future that is ready at once - the value is gone already - must not be polled again)
+                    let early = match futures::poll!(&mut f1) {
+                        std::task::Poll::Ready(v) => Some(format!("{:?}", v.map(|c| c.sum))),
+                        std::task::Poll::Pending => None,
+                    };
+                    let first_ready = early.is_some();
+                    let second = match guarded(no_panic(o.join())).await {
+                        Some(Ok(v)) => format!("{:?}", v.map(|c| c.sum)),
+                        Some(Err(())) => "panic".into(),
+                        None => {
+                            wd = true;
+                            "watchdog".into()
+                        }
+                    };
+                    let _ = o.to_addr().stop();
+                    let first = if wd {
+                        "-".to_string()
+                    } else if let Some(e) = early {
+                        e
+                    } else {
+                        match guarded(no_panic(f1)).await {
+                            Some(Ok(v)) => format!("{:?}", v.map(|c| c.sum)),
+                            Some(Err(())) => "panic".into(),
+                            None => {
+                                wd = true;
+                                "watchdog".into()
+                            }
+                        }
+                    };
+                    format!("{first_ready}/{second}/{first}")
+                }
+                None => "skip".into(),
+            },
             Op::JoinPollDrop => match live.owning.as_mut() {
                 Some(o) => {
                     let mut f = o.join();
@@ -790,6 +838,8 @@ mod generate {
             2 => Just(Op::ConsumeSync),
             2 => Just(Op::LazyJoinThenDrop),
             2 => Just(Op::JoinPollDrop),
+            2 => Just(Op::JoinDiscard),
+            1 => Just(Op::JoinWhilePending),
             1 => Just(Op::Await),
             2 => Just(Op::Restart),
             2 => (any::<bool>(), 1u8..4, 1u8..4).prop_map(|(with, k, period_ms)| Op::TicksThenStop { with, k, period_ms }),
